@@ -1,7 +1,7 @@
 (* C17 - Each wordseg command does what its Python function does.
    (a) option tables regenerated from ag.py / dpseg.py / main.cc / dpseg.cc on every run. *)
 From WS Require Import Base.Py Cli.Options gen.Options gen.Mains.
-From WS Require Import Base.Str Separator.Model Evaluate.Model Evaluate.ProofsScores Prepare.Model Prepare.Proofs Stats.Model Stats.Proofs Syll.Model Syll.ProofsLoop.
+From WS Require Import Base.Str Separator.Model Evaluate.Model Evaluate.ProofsScores Prepare.Model Prepare.Proofs Stats.Model Stats.Proofs Syll.Model Syll.ProofsLoop AG.Model AG.ModelProofs.
 
 (* every option the Python wrapper puts on the ag command line is declared by getopt
    with the same arity (flag / takes a value) and handled by a case label *)
@@ -84,3 +84,22 @@ Theorem C17_syllabify_never_runtime_error : forall ons vow sep filling text stri
   syllabify ons vow sep filling text strip_ tolerant = Raise e -> e <> RuntimeError /\ e <> OutOfFuel.
 Proof. exact syllabify_never_runtime_error_nor_out_of_fuel. Qed.
 Print Assumptions C17_syllabify_never_runtime_error.
+
+(* the option string of wordseg-ag on its way to the program (fix 7c13eaf): the wrapper reads -n / -x / -r argument by
+   argument, so an argument that merely contains such letters (a file name given to -G, -F, -A ...) plays no part
+   (with the former substring search a path like out-r1/g.lt was taken for the seed and rewritten); every run receives
+   the arguments given, unchanged apart from the seed, and the seed of run i is the one given plus i *)
+Theorem C17_ag_int_option_skip : forall (flag : char) (a : list str) (t : str) (b : list str),
+  is_flag flag t = false -> attached flag t = None -> is_flag flag (last a []) = false ->
+  int_option flag (a ++ t :: b) = int_option flag (a ++ b).
+Proof. exact int_option_skip. Qed.
+Print Assumptions C17_ag_int_option_skip.
+
+Theorem C17_ag_run_arguments : forall (toks : list str) (nruns : nat) (rnd : list Z) (seed : Z) (l : list (list str)),
+  int_option ch_r toks = Ok (Some seed) -> setup_seed toks nruns rnd = Ok l ->
+  length l = nruns /\
+  (forall i : nat, i < nruns ->
+     int_option ch_r (nth i l []) = Ok (Some (seed + Z.of_nat i)%Z) /\ unseeded (nth i l []) = unseeded toks) /\
+  NoDup l.
+Proof. exact setup_seed_given_seeds. Qed.
+Print Assumptions C17_ag_run_arguments.
